@@ -4,9 +4,13 @@
    extracted inductives.  No Extract Constant / Extract Inductive of our own. *)
 Require Extraction.
 Require Import ExtrOcamlBasic ExtrOcamlString.
-From OSQ Require Import Num IR Graph Bits.
+From OSQ Require Import Num IR Graph Bits Construct DefaultTable Matrix Check ABA Merge McKay CNOTDec Decompose.
 Extraction Language OCaml.
 Extraction "model.ml"
   mkNum mkCircuit mkGinfo
   graph_edges graph_nodes
-  reduced_ket expand_ket.
+  reduced_ket expand_ket
+  normalize_angle mk_axis mk_bsr mk_bsr_ax mk_ctrl mk_mat is_identity bsr_identity
+  can1 get_matrix circuit_matrix gates_matrix
+  default_gate aba_angles aba_gates mckay_gates cnot_gates compose_gates try_name merge decompose replace run_decomposer
+  reindex_gate check_replacement compare_gates compare_gates_ord gate_eq equiv_up_to_phase.
